@@ -162,7 +162,7 @@ def name_obligation(unit, meta, gen_lines, d, seen, gen_name):
             site_text = open(os.path.join(meta.get('repo', '/repo'), f_)).read().split('\n')[int(l_) - 1].strip()
         except Exception:
             pass
-    if label and kind in ('postcondition', 'invariant-end', 'invariant-entry', 'invariant', 'decreases'):
+    if label and kind in ('postcondition', 'invariant-end', 'invariant-entry', 'invariant', 'decreases', 'assertion'):
         # a labelled clause of this function failed
         ob = '%s::%s::%s' % (unit, fname, label)
         if kind.startswith('invariant') and site_text is None:
@@ -300,7 +300,7 @@ def run_unit(unit, repo='/repo', outdir=None, solver='z3', canary=True, timeout=
         res['wall_s'] = time.time() - t0
         return res
     # every lifted function must appear in Verus' breakdown (anti-vacuity (a))
-    missing = [f['name'] for f in res['functions'] if f['success'] is None]
+    missing = [f['name'] for f in res['functions'] if f['success'] is None and not f['name'].startswith('const ')]
     if missing:
         res['status'] = 'undecided'
         res['undecided_reason'] = 'no verification verdict reported for lifted function(s): %s' % ', '.join(missing)
